@@ -12,6 +12,7 @@ mod c03;
 mod c04;
 mod c05;
 mod c06;
+mod c07;
 mod c09;
 mod c10;
 mod c11;
@@ -26,6 +27,7 @@ mod c20;
 mod dynenc;
 mod gen;
 mod prog;
+mod sources;
 
 use common::*;
 
@@ -50,6 +52,8 @@ fn main() {
         "C04" => c04::run(&mut em, &mut rng, thorough),
         "C05" => c05::run(&mut em, &mut rng, thorough),
         "C06" => c06::run(&mut em, &mut rng, thorough),
+        "C07" => c07::run(&mut em, &mut rng, thorough),
+        "C08" => c07::run08(&mut em, &mut rng, thorough),
         "C09" => c09::run(&mut em, &mut rng, thorough),
         "C10" => c10::run(&mut em, &mut rng, thorough),
         "C12" => c12::run(&mut em, &mut rng, thorough),
